@@ -110,6 +110,11 @@ class Net:
     self.log = []
     # explicit faults: {call_index: ('req_lost'|'resp_lost'|'delay', arg)}
     self.faults = {}
+    # explicit faults by method: list of {'method': substring, 'at': k | [a, b], 'kind': ...};
+    # the k-th call (1-based) whose full method name contains the substring.
+    self.method_faults = []
+    self.method_calls = {}
+    self.enabled = True
     self.fired = {}
     self._port = 40000
 
@@ -163,6 +168,19 @@ class SimChannel:
       idx = net.calls
       net.calls += 1
       fault = net.faults.get(idx)
+      if fault is None and net.method_faults and net.enabled:
+        counted = set()
+        for mf in net.method_faults:
+          if mf['method'] in method and mf['method'] not in counted:
+            counted.add(mf['method'])
+            net.method_calls[mf['method']] = net.method_calls.get(mf['method'], 0) + 1
+        for mf in net.method_faults:
+          if mf['method'] in method:
+            k = net.method_calls[mf['method']]
+            at = mf['at']
+            if at == k or (isinstance(at, list) and at[0] <= k <= at[1]):
+              fault = (mf['kind'], mf.get('arg', 1.0))
+              break
       srv = net.servers.get(self.endpoint)
       if srv is None:
         raise SimRpcError(grpc.StatusCode.UNAVAILABLE, 'failed to connect to all addresses')
